@@ -374,6 +374,7 @@ def run_post(case):
             mob = np.zeros((n, 3))
             for k, nme in enumerate(names):
                 mob[k] = [BASE[nme], BASE[nme] * 1.5, BASE[nme] * 0.25]
+                mob[k] *= (1 + 0.0625 * k)     # two composition sets of one phase carry different mobilities
                 if pat[k] == 'undef':
                     mob[k, :] = -1
                 elif pat[k] == 'part':
@@ -418,6 +419,9 @@ POINTS = {
         {'label': 'fcc+bcc-minor-fcc', 'x': [0.2, 0.02], 'T': 1373.15},
         {'label': 'bcc+fcc-1073', 'x': [0.3, 0.1], 'T': 1073.15},
         {'label': 'bcc-1573', 'x': [0.257, 0.065], 'T': 1573.15},
+        # miscibility gap: BCC_A2 is stable with two composition sets (its name appears twice in the stable set)
+        {'label': 'bccgap+fcc-700', 'x': [0.5, 0.05], 'T': 700.0},
+        {'label': 'bccgap-700', 'x': [0.5, 0.001], 'T': 700.0},
     ],
     'NiCrAl': [
         {'label': 'fcc', 'x': [0.05, 0.05], 'T': 1073.0},
@@ -449,8 +453,8 @@ def run_real(case):
     names = list(raw.phases[0])
     mob = np.array(raw.mobility[0], dtype=float)
     fr = np.array(raw.phase_fractions[0], dtype=float)
-    if len(set(names)) != len(names):
-        raise RuntimeError('listed point %r has a miscibility gap %r: choose another' % (pt, names))
+    if (len(set(names)) != len(names)) != ('gap' in pt['label']):
+        raise RuntimeError('listed point %r: stable set %r does not match its label (miscibility gap expected iff labelled gap)' % (pt, names))
     D = list(therm.phases)
     nst = 0
     outs = set()
@@ -634,7 +638,11 @@ def run(ctx):
     pcases = []
     for D in ([['A', 'B', 'C']] if quick else [['A', 'B', 'C'], ['A', 'B', 'C', 'D']]):
         for k in range(1, len(D) + 1):
-            for S in itertools.permutations(D, k):
+            # stable sets WITH repetition: a phase can be stable with two composition sets (miscibility gap), so its
+            # name then appears twice in MobilityData.phases
+            for S in itertools.product(D, repeat=k):
+                if k == len(D) and len(D) == 4 and len(set(S)) < 3:
+                    continue
                 pcases.append({'D': D, 'S': list(S), 'rules': ['wiener upper'] if quick else ['wiener upper', 'hashin lower']})
     ctx.product_run('post', 'checks.c17:run_post', pcases, chunksize=1)
 
